@@ -257,6 +257,12 @@ fn poll_once<F: core::future::Future>(f: F) -> Option<F::Output> {
     }
 }
 
+/// Drop a buffer a call into the crate has just worked on; a panic inside `Drop` (e.g. a debug assertion on a
+/// header the call left inconsistent) is a finding about that call, not a harness failure.
+fn quiet_drop<const N: usize>(b: Box<B<N>>) -> Option<String> {
+    catch_unwind(AssertUnwindSafe(move || drop(b))).err().map(|p| crate::panic_text(&p))
+}
+
 /// Execute one action on the real buffer through the given trait family.
 pub fn io_apply<const N: usize>(b: &mut B<N>, act: &IoAct, via: Via) -> IoObs {
     let live: Vec<u8> = b.iter().copied().collect();
@@ -404,9 +410,9 @@ pub fn io_apply<const N: usize>(b: &mut B<N>, act: &IoAct, via: Via) -> IoObs {
         }
         #[cfg(feature = "std")]
         IoAct::ReadToEnd => {
-            // (the destination Vec grows outside `mc`: only the crate's own allocations are attributed)
+            // (the destination is pre-sized: allocations inside the call are the implementation's own)
             let mut out: Vec<u8> = Vec::with_capacity(4 * N + 64);
-            match std::io::Read::read_to_end(b, &mut out) {
+            match mc(|| std::io::Read::read_to_end(b, &mut out)) {
                 Ok(n) => IoObs::Read(n, out, true),
                 Err(e) => IoObs::Err(format!("{:?}", e.kind())),
             }
@@ -441,7 +447,7 @@ pub fn io_apply<const N: usize>(b: &mut B<N>, act: &IoAct, via: Via) -> IoObs {
         IoAct::ReadUntil(j) => {
             let delim = if j < live.len() { live[j] } else { fresh_bytes(&live, 1)[0] };
             let mut out: Vec<u8> = Vec::with_capacity(4 * N + 64);
-            match std::io::BufRead::read_until(b, delim, &mut out) {
+            match mc(|| std::io::BufRead::read_until(b, delim, &mut out)) {
                 Ok(n) => IoObs::Read(n, out, true),
                 Err(e) => IoObs::Err(format!("{:?}", e.kind())),
             }
@@ -676,11 +682,19 @@ pub fn io_case_routed<const N: usize>(recipe: &[IoAct], history_via: Via, act: &
         Ok(o) => o,
         Err(p) => {
             probs.push(format!("{} panicked: {}", act.show(), crate::panic_text(&p)));
+            std::mem::forget(b); // (whatever state the unwinding left: not touched again)
             return (IoObs::Err("panic".into()), vec![], vec![], probs, true);
         }
     };
     let exp = io_model(N, &mut model, act);
-    let contents: Vec<u8> = b.iter().copied().collect();
+    let contents: Vec<u8> = match catch_unwind(AssertUnwindSafe(|| b.iter().copied().collect::<Vec<u8>>())) {
+        Ok(c) => c,
+        Err(p) => {
+            probs.push(format!("after {} the buffer cannot be read any more: iter() panicked: {}", act.show(), crate::panic_text(&p)));
+            std::mem::forget(b);
+            return (obs, vec![], vec![], probs, true);
+        }
+    };
     match (act, &obs) {
         (IoAct::ReadExact(d), _) if *d > pre.len() => {
             // failed read_exact: any amount may have been consumed from the front
@@ -750,6 +764,10 @@ pub fn io_case_routed<const N: usize>(recipe: &[IoAct], history_via: Via, act: &
         }
         *f.borrow_mut() = v;
     });
+    if let Some(p) = quiet_drop(b) {
+        probs.push(format!("dropping the buffer after {} panicked: {}", act.show(), p));
+        return (obs, contents, key, probs, true);
+    }
     (obs, contents, key, probs, false)
 }
 
@@ -860,6 +878,9 @@ pub fn c14_check<const N: usize>(_o: &Opts, rep: &mut Report) {
             }
         }
     }
+    if N <= 6 {
+        io_utf8::<N>("C14", rep);
+    }
     rep.states += sp.recipes.len() as u64;
     rep.transitions += trans;
     rep.validated += trans;
@@ -883,6 +904,49 @@ pub fn c14_check<const N: usize>(_o: &Opts, rep: &mut Report) {
     }
 }
 
+/// C02 on byte buffers, one case: history `r`, one I/O call `a`, then `push` and `pop` at the same end.
+pub fn c02_after_io<const N: usize>(r: &[IoAct], a: &IoAct, push: &IoAct, pop: &IoAct, via: Via) -> Option<String> {
+    let (mut b, mut model) = rebuild_via::<N>(r, via);
+    let o = catch_unwind(AssertUnwindSafe(|| io_apply(&mut b, a, via)));
+    let exp = io_model(N, &mut model, a);
+    match o {
+        Err(_) => {
+            std::mem::forget(b);
+            return None;
+        }
+        Ok(o) => {
+            if exp.is_some() && exp.as_ref() != Some(&o) {
+                let _ = quiet_drop(b);
+                return None;
+            }
+        }
+    }
+    match catch_unwind(AssertUnwindSafe(|| b.iter().copied().collect::<Vec<u8>>())) {
+        Ok(c) if c != model => {
+            let _ = quiet_drop(b);
+            return None; // the I/O call itself is wrong: not this property's business
+        }
+        _ => {}
+    }
+    for step in [push, pop] {
+        let want = io_model(N, &mut model, step);
+        match catch_unwind(AssertUnwindSafe(|| io_apply(&mut b, step, via))) {
+            Err(p) => {
+                std::mem::forget(b);
+                return Some(format!("{} straight after {} panicked: {}", step.show(), a.show(), crate::panic_text(&p)));
+            }
+            Ok(o) => {
+                if want.as_ref() != Some(&o) {
+                    let _ = quiet_drop(b);
+                    return Some(format!("{} straight after {} (then {}) returned {:?}, expected {:?}", step.show(), a.show(), pop.show(), o, want));
+                }
+            }
+        }
+    }
+    let _ = quiet_drop(b);
+    None
+}
+
 /// C04 on byte buffers, one case: `act` and a fixed follow-up sequence from the state reached by `r`, and from a
 /// buffer with equal contents built by `push_back` alone.  Some(description) if they can be told apart.
 pub fn c04_pair<const N: usize>(r: &[IoAct], act: &IoAct) -> Option<String> {
@@ -891,14 +955,15 @@ pub fn c04_pair<const N: usize>(r: &[IoAct], act: &IoAct) -> Option<String> {
     let run = |mut b: Box<B<N>>| -> Vec<String> {
         let mut out = vec![];
         for a in std::iter::once(act).chain(follow.iter()) {
-            let o = match catch_unwind(AssertUnwindSafe(|| io_apply(&mut b, a, via))) {
-                Ok(IoObs::Bytes(s)) => {
-                    // fill_buf shows where as_slices splits (exempt); what it returns must still be a
-                    // non-empty prefix of the contents
-                    let c: Vec<u8> = b.iter().copied().collect();
-                    format!("fill_buf prefix={} empty={}", c.starts_with(&s), s.is_empty())
-                }
-                Ok(o) => format!("{:?}", o),
+            let o = match catch_unwind(AssertUnwindSafe(|| {
+                let o = io_apply(&mut b, a, via);
+                let c: Vec<u8> = b.iter().copied().collect();
+                (o, c)
+            })) {
+                // fill_buf shows where as_slices splits (exempt); what it returns must still be a
+                // non-empty prefix of the contents
+                Ok((IoObs::Bytes(s), c)) => format!("fill_buf prefix={} empty={} ; contents {:?}", c.starts_with(&s), s.is_empty(), c),
+                Ok((o, c)) => format!("{:?} ; contents {:?}", o, c),
                 Err(p) => format!("PANIC {}", crate::panic_text(&p)),
             };
             if o.starts_with("PANIC") {
@@ -906,7 +971,10 @@ pub fn c04_pair<const N: usize>(r: &[IoAct], act: &IoAct) -> Option<String> {
                 std::mem::forget(b);
                 return out;
             }
-            out.push(format!("{} -> {} ; contents {:?}", a.show(), o, b.iter().copied().collect::<Vec<u8>>()));
+            out.push(format!("{} -> {}", a.show(), o));
+        }
+        if let Some(p) = quiet_drop(b) {
+            out.push(format!("drop -> PANIC {}", p));
         }
         out
     };
@@ -935,6 +1003,13 @@ pub fn replay_u8_twin<const N: usize>(c: &Case) -> Result<i32, String> {
     let mut code = 0;
     if c.prop == "C04" {
         if let Some(p) = c04_pair::<N>(&recipe, &act) {
+            println!("VIOLATION REPRODUCED: {}", p);
+            code = 1;
+        }
+    } else if c.prop == "C02" && recipe.last().map(|a| a.is_io()).unwrap_or(false) {
+        let (hist, a) = recipe.split_at(recipe.len() - 1);
+        let pop = if matches!(act, IoAct::PushBack | IoAct::TryPushBack) { IoAct::PopBack } else { IoAct::PopFront };
+        if let Some(p) = c02_after_io::<N>(hist, &a[0], &act, &pop, default_via()) {
             println!("VIOLATION REPRODUCED: {}", p);
             code = 1;
         }
@@ -978,6 +1053,25 @@ pub fn u8_twin<const N: usize>(prop: &str, rep: &mut Report) {
             }
         }
     });
+    if prop == "C02" {
+        // push / try_push straight after every byte-I/O call (the I/O impls move the front by their own code):
+        // I/O call; push; pop at the same end.  Judged only where the I/O call itself did what the model says, or
+        // left a state that cannot even be read.
+        let via = default_via();
+        for r in &sp.recipes {
+            for a in io_alphabet(N).into_iter().filter(|a| a.is_io()) {
+                for (push, pop) in [(IoAct::PushBack, IoAct::PopBack), (IoAct::PushFront, IoAct::PopFront), (IoAct::TryPushBack, IoAct::PopBack), (IoAct::TryPushFront, IoAct::PopFront)] {
+                    crate::set_case(&format!("n={}|ctor=new|recipe={}|filling=none|act={}|fault=none|extra=io", N, recipe_str(r), push.show()));
+                    if let Some(p) = c02_after_io::<N>(r, &a, &push, &pop, via) {
+                        let mut r2 = r.to_vec();
+                        r2.push(a);
+                        viols.push((r2, push, p));
+                    }
+                    n += 1;
+                }
+            }
+        }
+    }
     if prop == "C04" {
         let mut acts = io_alphabet(N);
         acts.push(IoAct::HashIt);
@@ -1006,6 +1100,135 @@ pub fn u8_twin<const N: usize>(prop: &str, rep: &mut Report) {
     }
 }
 
+/// `Read::read_to_string` (a provided method an impl may override): every front rotation x every content that is a
+/// sequence of {1, 2, 3, 4-byte characters, an invalid byte, a lone lead byte} of total length <= N, so that every
+/// character kind straddles the wrap point at every offset.  Judged by the documented contract (C14) and for heap
+/// allocations inside the call with a pre-sized destination (C17).
+#[cfg(feature = "std")]
+pub fn utf8_case<const N: usize>(rot: usize, content: &[u8], prefix: &str) -> (Vec<String>, u64) {
+    let mut b: Box<B<N>> = Box::new(B::<N>::new());
+    for _ in 0..rot {
+        b.push_back(b'x');
+    }
+    for &c in content {
+        b.push_back(c);
+    }
+    while b.len() > content.len() {
+        b.pop_front();
+    }
+    let mut probs = vec![];
+    let mut dst = String::with_capacity(4 * N + 256);
+    dst.push_str(prefix);
+    let a0 = crate::alloc::count();
+    let r = catch_unwind(AssertUnwindSafe(|| std::io::Read::read_to_string(&mut *b, &mut dst)));
+    let allocs = crate::alloc::count() - a0;
+    let r = match r {
+        Ok(r) => r,
+        Err(p) => {
+            std::mem::forget(b);
+            return (vec![format!("read_to_string panicked: {}", crate::panic_text(&p))], 0);
+        }
+    };
+    match (std::str::from_utf8(content), r) {
+        (Ok(text), Ok(n)) => {
+            if n != content.len() || dst != format!("{}{}", prefix, text) {
+                probs.push(format!("read_to_string returned Ok({}) and the destination {:?}; the contents were {:?} ({} bytes)", n, dst, text, content.len()));
+            }
+            if !b.is_empty() {
+                probs.push(format!("after a successful read_to_string {} byte(s) are still buffered", b.len()));
+            }
+        }
+        (Ok(text), Err(e)) => probs.push(format!("read_to_string failed ({:?}) on valid UTF-8 {:?}", e.kind(), text)),
+        (Err(_), Ok(n)) => probs.push(format!("read_to_string returned Ok({}) on invalid UTF-8 {:02x?}", n, content)),
+        (Err(_), Err(e)) => {
+            if e.kind() != std::io::ErrorKind::InvalidData {
+                probs.push(format!("read_to_string on invalid UTF-8 failed with {:?}, documented: InvalidData", e.kind()));
+            }
+            if dst != prefix {
+                probs.push(format!("read_to_string failed but changed the destination to {:?}", dst));
+            }
+        }
+    }
+    if let Some(p) = quiet_drop(b) {
+        probs.push(format!("dropping the buffer after read_to_string panicked: {}", p));
+    }
+    (probs, allocs)
+}
+
+#[cfg(feature = "std")]
+pub fn io_utf8<const N: usize>(prop: &str, rep: &mut Report) {
+    const TOKENS: [&[u8]; 6] = [b"a", "\u{e9}".as_bytes(), "\u{20ac}".as_bytes(), "\u{1d11e}".as_bytes(), &[0xFF], &[0xC3]];
+    fn gen(left: usize, cur: &mut Vec<u8>, out: &mut Vec<Vec<u8>>) {
+        out.push(cur.clone());
+        for t in TOKENS {
+            if t.len() <= left {
+                cur.extend_from_slice(t);
+                gen(left - t.len(), cur, out);
+                cur.truncate(cur.len() - t.len());
+            }
+        }
+    }
+    let mut contents = vec![];
+    gen(N, &mut vec![], &mut contents);
+    let mut n = 0u64;
+    for rot in 0..N.max(1) {
+        for c in &contents {
+            for prefix in ["", "p"] {
+                let hex: String = c.iter().map(|b| format!("{:02x}", b)).collect();
+                crate::set_case(&format!("n={}|ctor=new|recipe={}|filling=none|act={}|fault=none|extra=utf8{}", N, rot, hex, prefix));
+                let (probs, allocs) = utf8_case::<N>(rot, c, prefix);
+                n += 1;
+                let mut found: Vec<(String, &str)> = vec![];
+                if prop == "C14" {
+                    found.extend(probs.into_iter().map(|p| (p, "utf8")));
+                } else if allocs > 0 && probs.iter().all(|p| !p.contains("panicked")) {
+                    found.push((format!("{} heap allocation event(s) inside read_to_string (destination pre-sized)", allocs), "utf8-alloc"));
+                }
+                for (p, kind) in found {
+                    rep.violation(Violation {
+                        sig: format!("N={}:read_to_string:{}", N, kind),
+                        detail: format!("N={} CircularBuffer<N,u8> front at slot {} holding bytes {:02x?}, read_to_string into {:?}: {}", N, rot, c, prefix, p),
+                        replay: ReplayCase { n: N, ctor: "new".into(), recipe: rot.to_string(), filling: "none".into(), act: hex.clone(), fault: "none".into(), extra: format!("utf8{}", prefix) },
+                    });
+                }
+            }
+        }
+    }
+    rep.transitions += n;
+    rep.validated += n;
+    rep.evaluations += n;
+    rep.nontrivial += n;
+    *rep.by_action.entry("read_to_string".into()).or_insert(0) += n;
+}
+#[cfg(not(feature = "std"))]
+pub fn io_utf8<const N: usize>(_prop: &str, _rep: &mut Report) {}
+
+pub fn replay_utf8<const N: usize>(c: &Case) -> Result<i32, String> {
+    #[cfg(feature = "std")]
+    {
+        let rot: usize = c.recipe.parse().map_err(|_| "bad rotation")?;
+        let bytes: Vec<u8> = (0..c.act.len() / 2).map(|i| u8::from_str_radix(&c.act[2 * i..2 * i + 2], 16).unwrap_or(0)).collect();
+        let prefix = c.extra.strip_prefix("utf8").unwrap_or("");
+        let (probs, allocs) = utf8_case::<N>(rot, &bytes, prefix);
+        println!("N={} front at slot {} bytes {:02x?} read_to_string into {:?}: {} allocation event(s) inside the call", N, rot, bytes, prefix, allocs);
+        let mut code = 0;
+        if c.prop == "C17" {
+            if allocs > 0 {
+                println!("VIOLATION REPRODUCED: the call allocated");
+                code = 1;
+            }
+        } else {
+            for p in probs {
+                println!("VIOLATION REPRODUCED: {}", p);
+                code = 1;
+            }
+        }
+        return Ok(code);
+    }
+    #[allow(unreachable_code)]
+    Err("std::io is not compiled into this build".into())
+}
+
 /// C17 on the byte-I/O impls: no call into them allocates (incl. the provided methods read_exact / write_all,
 /// which an impl may override).  Only meaningful where std::io exists.
 pub fn c17_io<const N: usize>(rep: &mut Report) {
@@ -1020,7 +1243,7 @@ pub fn c17_io<const N: usize>(rep: &mut Report) {
     for m in 0..=2 * N + 1 {
         acts.push(IoAct::WriteAll(m));
     }
-    acts.extend(provided_alphabet(N, true).into_iter().filter(|a| matches!(a, IoAct::ReadVectored(..) | IoAct::WriteVectored(..))));
+    acts.extend(provided_alphabet(N, true).into_iter().filter(|a| matches!(a, IoAct::ReadVectored(..) | IoAct::WriteVectored(..) | IoAct::ReadToEnd | IoAct::ReadUntil(_))));
     let mut n = 0u64;
     for r in &sp.recipes {
         for act in &acts {
@@ -1028,6 +1251,7 @@ pub fn c17_io<const N: usize>(rep: &mut Report) {
             IO_ALLOCS.with(|c| c.set(0));
             let res = catch_unwind(AssertUnwindSafe(|| io_apply(&mut b, act, Via::Std)));
             let allocs = IO_ALLOCS.with(|c| c.get());
+            let _ = quiet_drop(b);
             n += 1;
             if res.is_ok() && allocs > 0 {
                 rep.violation(Violation {
@@ -1043,6 +1267,9 @@ pub fn c17_io<const N: usize>(rep: &mut Report) {
     rep.evaluations += n;
     rep.nontrivial += n / 2;
     *rep.by_action.entry("byte I/O calls (allocation monitor)".into()).or_insert(0) += n;
+    if N <= 6 {
+        io_utf8::<N>("C17", rep);
+    }
 }
 
 pub fn replay_io_alloc<const N: usize>(c: &Case) -> Result<i32, String> {
